@@ -296,6 +296,30 @@ std::string run_mep(const std::vector<std::vector<std::string>> &sec)
       x = x.cse();
       out += rec_mep("C", "-", x, true);
     }
+    else if (o == "LB" || o == "LU")
+    {
+      // load, over an individual that may already have reported its signature,
+      // the stream of a closely related one:
+      //   LB r c : x.get_block({r,c})            -- same genome, other entry locus
+      //   LU r c : x with the constant at {r,c} moved by one ulp (same under gene ==)
+      const locus l{static_cast<index_t>(std::stoul(ops.at(i + 1))), static_cast<category_t>(std::stoul(ops.at(i + 2)))};
+      i += 2;
+      i_mep src(x);
+      if (o == "LB")
+        src = x.get_block(l);
+      else
+      {
+        gene g(x[l]);
+        if (g.sym->terminal() && terminal::cast(g.sym)->parametric())
+          g.par = std::nextafter(g.par, std::numeric_limits<double>::infinity());
+        src = x.replace(l, g);
+      }
+      std::stringstream ss;
+      src.save(ss);
+      std::istringstream in(ss.str());
+      const bool ok(x.load(in, prb.sset));
+      out += rec_mep(o, ok ? "ok=1" : "ok=0", x, true);
+    }
     else if (o == "L" || o == "LY" || o == "LF")
     {
       std::stringstream ss;
@@ -497,6 +521,19 @@ std::string run_de(const std::vector<std::vector<std::string>> &sec)
       i += 1;
       x = x.crossover(0.5, range_t<double>{0.25, 0.75}, y, x, y);
       out += rec_vec("X", "-", x, true);
+    }
+    else if (o == "LZ")
+    {
+      // a vector equal to x under operator== but bitwise different (+0.0 / -0.0)
+      i_de src(x);
+      for (std::size_t j(0); j < src.parameters(); ++j)
+        if (static_cast<const i_de &>(x)[j] == 0.0)
+          src[j] = -static_cast<const i_de &>(x)[j];
+      std::stringstream ss;
+      src.save(ss);
+      std::istringstream in(ss.str());
+      const bool ok(x.load(in, prb.sset));
+      out += rec_vec(o, ok ? "ok=1" : "ok=0", x, true);
     }
     else if (o == "L" || o == "LY" || o == "LF")
     {
